@@ -260,7 +260,62 @@ def rule_j3(ctx):
         ctx.check(ok, "J3-width-variable", cc, "an unbound width is instantiated with the actual length", site(fn_), "width variable must be bound to str(len(unparsed))", "len of the text")
 
 
+def late_binding_sites(tree: ast.AST):
+    """(loop, lambda/def, captured names, storing statement): closures created in a loop body that read the loop variable and are STORED (container item / attribute /
+    .append) - Python closures see the variable's last value, so all stored closures behave like the one of the final iteration."""
+    out = []
+    for loop in [n for n in ast.walk(tree) if isinstance(n, (ast.For, ast.AsyncFor))]:
+        tg = {n.id for n in ast.walk(loop.target) if isinstance(n, ast.Name)}
+        for st in loop.body:
+            for stmt in [x for x in ast.walk(st) if isinstance(x, (ast.Assign, ast.AugAssign, ast.AnnAssign, ast.Expr))]:
+                if isinstance(stmt, ast.Expr):
+                    v = stmt.value
+                    if not (isinstance(v, ast.Call) and isinstance(v.func, ast.Attribute) and v.func.attr in ("append", "add", "setdefault", "update", "insert", "extend")):
+                        continue
+                    val = v
+                else:
+                    tgts = stmt.targets if isinstance(stmt, ast.Assign) else [stmt.target]
+                    if not any(isinstance(t, (ast.Subscript, ast.Attribute)) for t in tgts):
+                        continue
+                    val = stmt.value
+                if val is None:
+                    continue
+                for lam in [x for x in ast.walk(val) if isinstance(x, ast.Lambda)]:
+                    params = {a.arg for a in lam.args.args + lam.args.kwonlyargs + lam.args.posonlyargs}
+                    defaults = {n.id for d in lam.args.defaults + [k for k in lam.args.kw_defaults if k is not None] for n in ast.walk(d) if isinstance(n, ast.Name)}
+                    used = {n.id for n in ast.walk(lam.body) if isinstance(n, ast.Name) and isinstance(n.ctx, ast.Load)}
+                    cap = (used & tg) - params
+                    # immediately invoked lambda `(lambda: ...)()` or one handed to a consuming builtin is evaluated within the iteration
+                    par = getattr(lam, "_parent", None)
+                    immediate = isinstance(par, ast.Call) and (par.func is lam or (call_name(par) or "") in ("sorted", "min", "max", "map", "filter", "any", "all", "next", "reduce", "functools.reduce", "sum", "safe", "lazystr"))
+                    if cap and not immediate:
+                        out.append((loop, lam, sorted(cap), stmt))
+    return out
+
+
+def rule_j4(ctx):
+    """No predicate (or any other stored callable) is built from a closure that captures a loop variable by reference.  Expected count on today's tree: zero."""
+    from ..callgraph import SRC_ISLA
+
+    n_loops = 0
+    for rel in SRC_ISLA:
+        m = ctx.repo.module(rel, "C20.J4")
+        n_loops += sum(1 for n in ast.walk(m.tree) if isinstance(n, ast.For))
+        for loop, lam, cap, stmt in late_binding_sites(m.tree):
+            ctx.viol("J4-late-binding", f"{rel}:{qual(lam)}", f"closure over loop variable(s) {cap}", site(lam),
+                     f"`{' '.join(src(lam).split())[:70]}` is created inside `for {src(loop.target)} in ...` and stored (`{' '.join(src(stmt).split())[:50]}...`) while reading {cap}: all closures stored by the loop see "
+                     "the LAST values of these variables - e.g. four justification predicates built in a loop all behave like the last one (rjust pads on the wrong side)")
+    fx = ast.parse("P = {}\nfor lj in (False, True):\n    P[lj] = Pred('x', lambda g, t: just(lj, t))\n")
+    for n_ in ast.walk(fx):
+        for ch in ast.iter_child_nodes(n_):
+            ch._parent = n_
+    if len(late_binding_sites(fx)) != 1:
+        raise Unrecognised("C20.J4", "fixture", "positive fixture did not fire")
+    ctx.ok("J4-late-binding", "src/isla", "no stored closure captures a loop variable", "src/isla:0", f"{n_loops} for-loops scanned; fixture fires")
+
+
 def run(ctx) -> str:
+    ctx.guarded("J4", lambda: rule_j4(ctx))
     ctx.guarded("J3", lambda: rule_j3(ctx))
     ctx.guarded("J", lambda: rule_j(ctx))
     ctx.guarded("A", lambda: rule_a(ctx))
